@@ -32,9 +32,11 @@ package stubs
 // The empty string is not a language code.
 //@ ufun isoKnown(code string) bool
 //@ axiom !isoKnown("")
+//@ ufun isoPart3(code string) string
+//@ ufun isoName(code string) string
 //@ extern github.com/barbashov/iso639-3.FromAnyCode
 //@   ensures (result != nil) == isoKnown(code)
-//@   ensures result != nil ==> len(result.Part3) == 3
+//@   ensures result != nil ==> len(result.Part3) == 3 && result.Part3 == isoPart3(code) && result.Name == isoName(code)
 
 // Contexts: a context is a finite map from (string) keys to values;
 // WithValue returns a new context that differs from its parent at one key.
